@@ -844,11 +844,143 @@ func c02ErrorBox(p *Program, r *Report, m *vmModel) {
 			if t != nil {
 				got = t.String()
 			}
+			// a box made here (reflect.New(T).Elem()) is empty until something is Set into it: returned empty it says "no error"
+			if ec, ok := ev.(*ssa.Call); ok && reflectMethod(ec) == "Elem" {
+				if nc, ok := ec.Call.Args[0].(*ssa.Call); ok && isFuncNamed(calleeObj(nc), "reflect", "", "New") {
+					filled := false
+					for _, ref := range *ec.Referrers() {
+						if sc, ok := ref.(*ssa.Call); ok && reflectMethod(sc) == "Set" && sc.Call.Args[0] == ssa.Value(ec) && instrDominates(sc, ret) {
+							filled = true
+						}
+					}
+					r.Check(filled, "C02.R6", fmt.Sprintf("%s|error result #%d carries the error", funcName(fn), k), p.Pos(instrPos(ret)), "the box made here is filled before it is returned",
+						"the error box returned on a failing path is made here and never filled: it is nil, so the failure (the interruption) is reported to the caller as success and the run continues")
+				}
+			}
 			r.Check(ok2, "C02.R6", fmt.Sprintf("%s|error result #%d is an error or *Error box", funcName(fn), k), p.Pos(instrPos(ret)), "reflect type "+got,
 				"the error half of the script function's result has reflect type "+got+", which the call sites reject: the failure (an interruption included) comes back as an ordinary 'VM function error type' error that try and ?? swallow")
 		}
 	}
 	r.Floor("C02.R6", n, 3)
+	c02Unboxing(p, r, m, isBody)
+}
+
+// c02Unboxing (R6): where package vm calls a script function's body directly and looks at the error box itself, the non-nil
+// side puts the unboxed error into the error cell on every path, and asserts the concrete type *Error only where the box's
+// type was tested to be that (an interruption is a plain error: asserted as *Error it panics into a different error).
+func c02Unboxing(p *Program, r *Report, m *vmModel, isBody func(*ssa.Function) bool) {
+	n := 0
+	for _, fn := range m.funcsOnRecord() {
+		base := m.baseOf(fn)
+		// error boxes: result 1 of calls through a value whose type is a body signature
+		boxes := map[ssa.Value]bool{}
+		for _, b := range fn.Blocks {
+			for _, in := range b.Instrs {
+				ex, ok := in.(*ssa.Extract)
+				if !ok || ex.Index != 1 {
+					continue
+				}
+				c, ok := ex.Tuple.(*ssa.Call)
+				if !ok {
+					continue
+				}
+				sig, ok := c.Call.Value.Type().Underlying().(*types.Signature)
+				if !ok || c.Call.IsInvoke() || sig.Results().Len() != 2 || sig.Results().At(0).Type().String() != "reflect.Value" || sig.Results().At(1).Type().String() != "reflect.Value" {
+					continue
+				}
+				boxes[ex] = true
+			}
+		}
+		if len(boxes) == 0 {
+			continue
+		}
+		isBox := func(v ssa.Value) bool {
+			if boxes[v] {
+				return true
+			}
+			if ph, ok := v.(*ssa.Phi); ok {
+				for _, e := range ph.Edges {
+					if boxes[e] {
+						return true
+					}
+				}
+			}
+			if sv := spilledValue(v); sv != nil && boxes[sv] {
+				return true
+			}
+			return false
+		}
+		for _, b := range fn.Blocks {
+			iff, ok := b.Instrs[len(b.Instrs)-1].(*ssa.If)
+			if !ok {
+				continue
+			}
+			cond, neg := iff.Cond, false
+			if u, ok := cond.(*ssa.UnOp); ok && u.Op == token.NOT {
+				cond, neg = u.X, true
+			}
+			c, ok := cond.(*ssa.Call)
+			if !ok || reflectMethod(c) != "IsNil" || !isBox(c.Call.Args[0]) {
+				continue
+			}
+			failSucc := b.Succs[1]
+			if neg {
+				failSucc = b.Succs[0]
+			}
+			n++
+			// every path from the failing side to a return stores into the error cell
+			blocked := func(x *ssa.BasicBlock) bool {
+				for _, in := range x.Instrs {
+					if st, ok := in.(*ssa.Store); ok && m.cellAddr(st.Addr, base) == "err" && !isNilConst(st.Val) {
+						return true
+					}
+				}
+				return false
+			}
+			bad := ""
+			for x := range reachable(failSucc, blocked) {
+				if ret, ok := x.Instrs[len(x.Instrs)-1].(*ssa.Return); ok {
+					bad = "the return at " + p.Pos(instrPos(ret)) + " is reached from the non-nil side without the error having been put into the error cell"
+				}
+			}
+			r.Check(bad == "", "C02.R6", fmt.Sprintf("%s|error box #%d unboxed into the error cell on every path", funcName(fn), n), p.Pos(c.Pos()), "every path from the non-nil side stores the error",
+				bad+": the callee's failure (an interruption included) is dropped and the caller carries on")
+		}
+		// *Error asserted only under the type test
+		k := 0
+		for _, b := range fn.Blocks {
+			for _, in := range b.Instrs {
+				ta, ok := in.(*ssa.TypeAssert)
+				if !ok || ta.CommaOk || !isNamedPtrTo(ta.AssertedType, modPath+"/vm", "Error") {
+					continue
+				}
+				ic, ok := ta.X.(*ssa.Call)
+				if !ok || reflectMethod(ic) != "Interface" || !isBox(ic.Call.Args[0]) {
+					continue
+				}
+				k++
+				n++
+				guarded := false
+				for d := b; d != nil && d.Idom() != nil; d = d.Idom() {
+					id := d.Idom()
+					if iff, ok := id.Instrs[len(id.Instrs)-1].(*ssa.If); ok {
+						if bo, ok := iff.Cond.(*ssa.BinOp); ok {
+							if tc, ok := bo.X.(*ssa.Call); ok && reflectMethod(tc) == "Type" && isBox(tc.Call.Args[0]) {
+								if (bo.Op == token.EQL && edgeOnly(id, 0, d)) || (bo.Op == token.NEQ && edgeOnly(id, 1, d)) {
+									guarded = true
+								}
+							}
+						}
+					}
+				}
+				r.Check(guarded, "C02.R6", fmt.Sprintf("%s|*Error asserted #%d only where the box holds one", funcName(fn), k), p.Pos(ta.Pos()), "on the true side of the test of the box's type",
+					"the content of the error box is asserted to be *Error where its type was not tested to be that: for an interruption (a plain error) the assertion panics and the run reports a different, catchable error")
+			}
+		}
+	}
+	if n == 0 {
+		r.Undecided("C02.R6", "direct call|error unboxing", "vm", "no direct call of a script function body with an error box test found")
+	}
 }
 
 func isNamedPtrTo(t types.Type, pkg, name string) bool {
